@@ -324,6 +324,38 @@ def tensordot(ex, state, a, b, axes, line):
     return res
 
 
+def einsum(ex, state, subscripts, operands, line):
+    """np.einsum with an explicit output ('ab,bc->ac'): every operand has as many axes as its subscript has letters, axes that
+    share a letter have equal length, the result has the lengths of the output letters (a fresh array)."""
+    if not isinstance(subscripts, str) or '->' not in subscripts or '.' in subscripts:
+        raise Unsupported('einsum without an explicit output at line %d' % line)
+    ins, out = subscripts.replace(' ', '').split('->')
+    ins = ins.split(',')
+    if len(ins) != len(operands):
+        ex.ctx.oblige(state, 'einsum-operands', line, False, 'number of operands does not match the subscripts')
+        raise Unsupported('einsum operands at line %d' % line)
+    dim = {}
+    cplx = z3.BoolVal(False)
+    for sub, a in zip(ins, operands):
+        if isinstance(a, (SNum, int)) and sub == '':
+            continue
+        a = need_rank(ex, state, a, line)
+        if len(sub) != len(a.shape):
+            ex.ctx.oblige(state, 'einsum-rank', line, False, 'operand has %d axes, subscript %r has %d letters' % (len(a.shape), sub, len(sub)))
+            raise Unsupported('einsum operand rank at line %d' % line)
+        cplx = z3.Or(cplx, a.cplx)
+        for ch, n in zip(sub, a.shape):
+            if ch in dim:
+                ex.ctx.oblige(state, 'einsum-shape', line, dim[ch] == n, 'axes labelled %r have different lengths' % ch)
+            else:
+                dim[ch] = n
+    for ch in out:
+        if ch not in dim:
+            ex.ctx.oblige(state, 'einsum-output', line, False, 'output letter %r does not occur in the inputs' % ch)
+            raise Unsupported('einsum output at line %d' % line)
+    return new_arr(state, [dim[ch] for ch in out], z3.simplify(cplx))
+
+
 def dot(ex, state, a, b, line):
     a, b = need_rank(ex, state, a, line), need_rank(ex, state, b, line)
     if len(a.shape) == 0 or len(b.shape) == 0:
